@@ -46,6 +46,26 @@ theorem escapeCdata_eq (s : Str) : escapeCdata s = s.flatMap escChar := by
       · subst h3; simp [escChar]
       · simp [escChar, h1, h2, h3]
 
+/-- `xml.sax.saxutils.escape` (`&`, `>`, `<`) and `ET._escape_cdata` (`&`, `<`, `>`) are the same function -/
+theorem saxEscape_eq (s : Str) : saxEscape s = escapeCdata s := by
+  rw [escapeCdata_eq]
+  have e1 : "&".toList = ['&'] := rfl
+  have e2 : "<".toList = ['<'] := rfl
+  have e3 : ">".toList = ['>'] := rfl
+  have a1 : "&amp;".toList = ['&', 'a', 'm', 'p', ';'] := rfl
+  have a2 : "&lt;".toList = ['&', 'l', 't', ';'] := rfl
+  have a3 : "&gt;".toList = ['&', 'g', 't', ';'] := rfl
+  simp only [saxEscape, replace, e1, e2, e3, a1, a2, a3, replaceGo_single, List.flatMap_assoc]
+  congr 1
+  funext c
+  by_cases h1 : c = '&'
+  · subst h1; simp [escChar]
+  · by_cases h2 : c = '<'
+    · subst h2; simp [escChar]
+    · by_cases h3 : c = '>'
+      · subst h3; simp [escChar]
+      · simp [escChar, h1, h2, h3]
+
 theorem escapeCdata_nil : escapeCdata [] = [] := by simp [escapeCdata_eq]
 
 theorem escapeCdata_cons (c : Char) (cs : Str) : escapeCdata (c :: cs) = escChar c ++ escapeCdata cs := by
@@ -633,15 +653,15 @@ theorem html_rendering_both (he : List Str) :
       exact RenderingList.cons _ _ r _ ss hr hw hss
     · simp only [toStringHtmlList, er, ess, List.append_assoc]
 
-/-- `tostring_unclosed_elements` on a whitespace-decorated parser-shaped tree without childless aggregate whose
-    leaf data is already wire-safe: a rendering of the tree itself (nothing is escaped), then the tail -/
+/-- `tostring_unclosed_elements` on a whitespace-decorated parser-shaped tree without childless aggregate:
+    a rendering of the escaped tree (leaves without end tag), then the tail -/
 theorem unclosed_rendering_both :
-    (∀ t0 t, parserShaped t0 = true → tagsOk t0 = true → hasEmptyAgg t0 = false → (∀ d ∈ texts t0, DataWF d) →
+    (∀ t0 t, parserShaped t0 = true → tagsOk t0 = true → hasEmptyAgg t0 = false → TextsOk (texts t0) →
       Frame t0 t →
-      ∃ r, Rendering t0 r ∧ toStringUnclosed t = r ++ orEmpty t.tail ∧ Ws (orEmpty t.tail)) ∧
+      ∃ r, Rendering (escapeTree t0) r ∧ toStringUnclosed t = r ++ orEmpty t.tail ∧ Ws (orEmpty t.tail)) ∧
     (∀ cs0 cs, parserShapedList cs0 = true → tagsOkList cs0 = true → hasEmptyAggList cs0 = false →
-      (∀ d ∈ textsList cs0, DataWF d) → FrameList cs0 cs →
-      ∃ s, RenderingList cs0 s ∧ toStringUnclosedList cs = s) := by
+      TextsOk (textsList cs0) → FrameList cs0 cs →
+      ∃ s, RenderingList (escapeTreeList cs0) s ∧ toStringUnclosedList cs = s) := by
   apply tree_induction
   · intro tag x tl cs0 ih t hp htag hne htx hf
     cases t with
@@ -660,14 +680,15 @@ theorem unclosed_rendering_both :
       subst hx'
       have hw := ws_of_optFrame_none htl
       have hd := htx d (by simp [texts])
-      refine ⟨Spec.Wire.startTag tag' ++ ([] ++ d), ?_, ?_, hw⟩
-      · exact Rendering.leafOpen tag' d [] htag.1 hd ws_nil
-      · simp [toStringUnclosed, Tree.tail, startTag_eq, orEmpty]
+      refine ⟨Spec.Wire.startTag tag' ++ ([] ++ escapeCdata d), ?_, ?_, hw⟩
+      · simp only [escapeTree, escapeTreeList, Option.map_some]
+        exact Rendering.leafOpen tag' (escapeCdata d) [] htag.1 (dataWF_escape hd.1 hd.2) ws_nil
+      · simp [toStringUnclosed, Tree.tail, startTag_eq, orEmpty, saxEscape_eq]
     | none =>
       simp only [parserShaped, Bool.and_eq_true, Option.isNone_iff_eq_none] at hp
       obtain ⟨rfl, hpl⟩ := hp
       have hw := ws_of_optFrame_none htl
-      have htx' : ∀ d ∈ textsList cs0, DataWF d := by simpa [texts] using htx
+      have htx' : TextsOk (textsList cs0) := by simpa [texts] using htx
       obtain ⟨s, hs, es⟩ := ih cs' hpl htag.2 hne.2 htx' hcs
       have hcs0 : cs0 ≠ [] := by
         rcases hne.1 with h | h
@@ -680,7 +701,8 @@ theorem unclosed_rendering_both :
           obtain ⟨c', cs'', rfl, _, _⟩ := frameList_cons_left hcs
           rfl
       refine ⟨Spec.Wire.startTag tag' ++ (orEmpty tl' ++ (s ++ Spec.Wire.endTag tag')), ?_, ?_, hw⟩
-      · exact Rendering.agg tag' cs0 (orEmpty tl') s htag.1 hw hs
+      · simp only [escapeTree, Option.map_none]
+        exact Rendering.agg tag' (escapeTreeList cs0) (orEmpty tl') s htag.1 hw hs
       · simp [toStringUnclosed, he', Tree.tail, es, startTag_eq, endTag_eq]
   · intro cs _ _ _ _ hf
     have := frameList_nil_left hf
@@ -691,12 +713,98 @@ theorem unclosed_rendering_both :
     simp only [parserShapedList, Bool.and_eq_true] at hp
     simp only [tagsOkList, Bool.and_eq_true] at htag
     simp only [hasEmptyAggList, Bool.or_eq_false_iff] at hne
-    have htx1 : ∀ d ∈ texts c0, DataWF d := fun d hd => htx d (by simp [textsList, hd])
-    have htx2 : ∀ d ∈ textsList cs0, DataWF d := fun d hd => htx d (by simp [textsList, hd])
-    obtain ⟨r, hr, er, hw⟩ := hc c' hp.1 htag.1 hne.1 htx1 hfc
-    obtain ⟨ss, hss, ess⟩ := hcs cs' hp.2 htag.2 hne.2 htx2 hfcs
-    refine ⟨r ++ (orEmpty c'.tail ++ ss), RenderingList.cons _ _ r _ ss hr hw hss, ?_⟩
-    simp only [toStringUnclosedList, er, ess, List.append_assoc]
+    have htx2 := textsOk_append (by simpa [textsList] using htx)
+    obtain ⟨r, hr, er, hw⟩ := hc c' hp.1 htag.1 hne.1 htx2.1 hfc
+    obtain ⟨ss, hss, ess⟩ := hcs cs' hp.2 htag.2 hne.2 htx2.2 hfcs
+    refine ⟨r ++ (orEmpty c'.tail ++ ss), ?_, ?_⟩
+    · simp only [escapeTreeList]
+      exact RenderingList.cons _ _ r _ ss hr hw hss
+    · simp only [toStringUnclosedList, er, ess, List.append_assoc]
+
+/-! ### the wire clause holds for everything the unclosed writer produces, tails permitting -/
+
+mutual
+  /-- every tail is wire-safe data (`None`, whitespace, …): `tostring_unclosed_elements` writes tails raw -/
+  def tailsOk : Tree → Bool
+    | .node _ _ tl cs => dataOk (orEmpty tl) && tailsOkList cs
+  def tailsOkList : List Tree → Bool
+    | [] => true
+    | c :: cs => tailsOk c && tailsOkList cs
+end
+
+theorem dataOk_ws {w : Str} (h : Ws w) : dataOk w = true := by
+  induction w with
+  | nil => rfl
+  | cons c cs ih =>
+    have hc := isSpace_not_special (h c (by simp))
+    simp only [dataOk, hc.2.1, hc.1, if_false, Bool.true_and]
+    exact ih (fun x hx => h x (by simp [hx]))
+
+theorem wireLex_unclosed_both :
+    (∀ t, tagsOk t = true → tailsOk t = true → wireLex (toStringUnclosed t) = true) ∧
+    (∀ cs, tagsOkList cs = true → tailsOkList cs = true → wireLex (toStringUnclosedList cs) = true) := by
+  apply tree_induction
+  · intro t x tl cs ih h1 h2
+    simp only [tagsOk, Bool.and_eq_true] at h1
+    simp only [tailsOk, Bool.and_eq_true] at h2
+    have htl := dataOk_imp_wireLex h2.1
+    by_cases hc : cs.isEmpty = true
+    · simp only [toStringUnclosed, hc, if_true, saxEscape_eq]
+      exact wireLex_append (wireLex_startTag h1.1)
+        (wireLex_append (dataOk_imp_wireLex (dataOk_escapeCdata _)) htl)
+    · simp only [toStringUnclosed, hc]
+      exact wireLex_append (wireLex_startTag h1.1) (wireLex_append htl
+        (wireLex_append (ih h1.2 h2.2) (wireLex_append (wireLex_endTag h1.1) htl)))
+  · intro _ _; rfl
+  · intro c cs hc hcs h1 h2
+    simp only [tagsOkList, Bool.and_eq_true] at h1
+    simp only [tailsOkList, Bool.and_eq_true] at h2
+    simp only [toStringUnclosedList]
+    exact wireLex_append (hc h1.1 h2.1) (hcs h1.2 h2.2)
+
+theorem frame_tailsOk_both :
+    (∀ t t', Frame t t' → tailsOk t = true → tailsOk t' = true) ∧
+    (∀ cs cs', FrameList cs cs' → tailsOkList cs = true → tailsOkList cs' = true) := by
+  apply tree_induction
+  · intro tag x tl cs ih t' hf h
+    cases t' with
+    | node tag' x' tl' cs' =>
+    unfold Frame at hf
+    obtain ⟨rfl, _, _, htl, hcs⟩ := hf
+    simp only [tailsOk, Bool.and_eq_true] at h ⊢
+    refine ⟨?_, ih cs' hcs h.2⟩
+    rcases htl with rfl | ⟨_, w, rfl, hw⟩
+    · exact h.1
+    · exact dataOk_ws hw
+  · intro cs' hf _
+    have := frameList_nil_left hf
+    subst this
+    rfl
+  · intro c cs hc hcs l' hf h
+    obtain ⟨c', cs', rfl, hfc, hfcs⟩ := frameList_cons_left hf
+    simp only [tailsOkList, Bool.and_eq_true] at h ⊢
+    exact ⟨hc c' hfc h.1, hcs cs' hfcs h.2⟩
+
+/-- parser-shaped trees have no tails at all -/
+theorem parserShaped_tailsOk_both :
+    (∀ t, parserShaped t = true → tailsOk t = true) ∧ (∀ cs, parserShapedList cs = true → tailsOkList cs = true) := by
+  apply tree_induction
+  · intro tag x tl cs ih h
+    cases x with
+    | some d =>
+      simp only [parserShaped, Bool.and_eq_true, Option.isNone_iff_eq_none, List.isEmpty_iff] at h
+      obtain ⟨rfl, rfl⟩ := h
+      rfl
+    | none =>
+      simp only [parserShaped, Bool.and_eq_true, Option.isNone_iff_eq_none] at h
+      obtain ⟨rfl, hl⟩ := h
+      simp only [tailsOk, ih hl, Bool.and_true]
+      rfl
+  · intro _; rfl
+  · intro c cs hc hcs h
+    simp only [parserShapedList, Bool.and_eq_true] at h
+    simp only [tailsOkList, hc h.1, hcs h.2]
+    rfl
 
 /-! ### frames keep the tags; escaping nothing -/
 
